@@ -9,7 +9,8 @@
      rows      : one value per SELECT item
    Spec side (the meaning of the language):
      seval     : conditions evaluated with predicate calls interpreted by binding the formal
-                 parameters to the argument entities
+                 parameters to what the arguments denote: the entity of an alias, or the value
+                 of a literal (call-by-value)
      spec_results *)
 From CPF Require Export Engine.Eval.
 From CPF Require Import gen.Tables.
@@ -220,13 +221,39 @@ Definition sel_value (env : tenv) (s : sel_item) : option val :=
 Definition row (q : query) (t : list node) : list (option val) :=
   List.map (sel_value (tuple_env q t)) (q_select q).
 
-(* ---------- specification: predicate calls bind their formals to the argument entities ---------- *)
+(* ---------- specification: predicate calls bind their formals to their arguments ---------- *)
 Definition of_expr : expr -> xexpr := inline 0 [] [] [].
 
-(* the entity an argument denotes: an alias (or an enclosing predicate's formal) *)
-Definition arg_entity (env : tenv) (a : expr) : option (bytes * node) :=
+(* what a formal parameter is bound to inside a predicate body: the entity an alias denotes, or
+   the value of a literal argument (call-by-value) *)
+Inductive bind :=
+| BEnt (k : bytes) (n : node)
+| BVal (v : value).
+
+(* the formals of the predicate being evaluated, in declaration order (first match wins) *)
+Definition fenv := list (bytes * bind).
+
+Definition bind_res (b : bind) : res :=
+  match b with
+  | BEnt k n => Val (VEnv k n)
+  | BVal v => literal v
+  end.
+
+(* a name inside a body: the predicate's own formals shadow the FROM aliases *)
+Definition flookup (env0 : tenv) (fe : fenv) (x : bytes) : option bind :=
+  match lookup x fe with
+  | Some b => Some b
+  | None => match lookup x env0 with Some (k, n) => Some (BEnt k n) | None => None end
+  end.
+
+(* what an argument denotes: an alias or an enclosing predicate's formal (whatever that is bound
+   to: an entity, or a value passed through), or a string / number literal; parentheses around
+   an argument mean nothing *)
+Fixpoint arg_bind (env0 : tenv) (fe : fenv) (a : expr) : option bind :=
   match a with
-  | EChain x [] => lookup x env
+  | EChain x [] => flookup env0 fe x
+  | EVal v => Some (BVal v)
+  | EParen a' => arg_bind env0 fe a'
   | _ => None
   end.
 
@@ -237,30 +264,47 @@ Fixpoint all_some {A} (l : list (option A)) : option (list A) :=
   | None :: _ => None
   end.
 
+(* atoms (call-free expressions) are evaluated by [eval]: the entity-bound formals extend the FROM
+   environment; a value-bound formal is the literal constant it is bound to.  [vsub] keeps one
+   entry per formal, in order, so that the FIRST formal of a given name decides, as for [lookup]. *)
+Fixpoint ents (fe : fenv) : tenv :=
+  match fe with
+  | [] => []
+  | (x, BEnt k n) :: r => (x, (k, n)) :: ents r
+  | (_, BVal _) :: r => ents r
+  end.
+
+Definition vsub (fe : fenv) : subst :=
+  List.map (fun '(x, b) => (x, match b with BVal v => XParen (XVal v) | BEnt _ _ => XVar x end)) fe.
+
+Definition atom_eval (env0 : tenv) (fe : fenv) (e : expr) : res :=
+  eval (ents fe ++ env0) (inline 0 [] [] (vsub fe) e).
+
 (* three-valued, left-to-right, short-circuit; conditions are boolean combinations of atoms;
    an atom is any call-free expression (evaluated by [eval]) or a predicate call.  A predicate
-   body sees its own formal parameters and the FROM aliases (env0), not its caller's formals. *)
-Fixpoint seval (d : nat) (decls : list pred_decl) (active : list bytes) (env0 : tenv) : tenv -> expr -> res :=
-  fix go (env : tenv) (e : expr) {struct e} : res :=
+   body sees its own formal parameters [fe] and the FROM aliases (env0), not its caller's formals;
+   at top level there are no formals ([fe] = []) and an atom is [eval env0 (of_expr e)]. *)
+Fixpoint seval (d : nat) (decls : list pred_decl) (active : list bytes) (env0 : tenv) : fenv -> expr -> res :=
+  fix go (fe : fenv) (e : expr) {struct e} : res :=
     match e with
-    | EParen a => go env a
+    | EParen a => go fe a
     | EUn UNot a =>
-        match go env a with
+        match go fe a with
         | Val (VB b) => Val (VB (negb b))
         | Val v => wrong_operand v
         | r => r
         end
     | EBin BAnd a b =>
-        match go env a with
+        match go fe a with
         | Val (VB false) => Val (VB false)
-        | Val (VB true) => go env b
+        | Val (VB true) => go fe b
         | Val v => wrong_operand v
         | r => r
         end
     | EBin BOr a b =>
-        match go env a with
+        match go fe a with
         | Val (VB true) => Val (VB true)
-        | Val (VB false) => go env b
+        | Val (VB false) => go fe b
         | Val v => wrong_operand v
         | r => r
         end
@@ -269,22 +313,22 @@ Fixpoint seval (d : nat) (decls : list pred_decl) (active : list bytes) (env0 : 
         | S d' =>
             if is_active (call_key f (length args)) active then OutOfFragment   (* recursion has no meaning *)
             else
-            match find_decl decls f (length args), all_some (List.map (arg_entity env) args) with
-            | Some decl, Some ents =>
+            match find_decl decls f (length args), all_some (List.map (arg_bind env0 fe) args) with
+            | Some decl, Some bs =>
                 seval d' decls (call_key f (length args) :: active) env0
-                      (combine (List.map snd (pd_params decl)) ents ++ env0) (pd_body decl)
+                      (combine (List.map snd (pd_params decl)) bs) (pd_body decl)
             | _, _ => OutOfFragment
             end
         | O => OutOfFragment
         end
-    | _ => eval env (of_expr e)
+    | _ => atom_eval env0 fe e
     end.
 
 Definition spec_accepted (q : query) (t : list node) : verdict :=
   match q_where q with
   | None => Accept
   | Some e =>
-      match seval (fuel_of (q_preds q)) (q_preds q) [] (tuple_env q t) (tuple_env q t) e with
+      match seval (fuel_of (q_preds q)) (q_preds q) [] (tuple_env q t) [] e with
       | Val (VB true) => Accept
       | OutOfFragment => Unknown
       | _ => Reject
